@@ -145,4 +145,60 @@ Section GOOD.
     apply usleep_clauses_k_nil; auto.
   Qed.
 
+  (* the record of a thread that has just gone to sleep in phase k' of its op *)
+  Definition sleep_record (th : thread) (k' : kont) (wq : option qid) (exp : Z) : thread :=
+    set_tts (match wq with
+             | Some q => set_twaitq (set_tstate (set_tk th k') SLEEPING) (Some q)
+             | None => set_tstate (set_tk th k') SLEEPING end) exp.
+
+  Lemma GoodT_sleep_record t th now clock tr k' wq exp :
+    GoodT t th now clock tr -> th_waitq th = None -> clock <= exp <= MAX64 -> k' <> [] ->
+    usleep_clauses t (sleep_record th k' wq exp) clock ->
+    (th_err th <> 0 -> src_ok progs tr t (th_err th) (th_esrc th)) ->
+    (forall q, wq = Some q -> exists j, q = QJoin j /\ cur_op t th = Some (OCore (OJoin j)) /\ k' = [1]) ->
+    (t <> 0%nat -> cur_op t th <> None) ->
+    GoodT t (sleep_record th k' wq exp) now clock tr.
+  Proof.
+    intros [A B C D E F G] Hw Hexp Hk' Hcl Hsrc Hwq Hend.
+    assert (P : forall (X : Type) (p : thread -> X),
+              (forall x s, p (set_tstate x s) = p x) -> (forall x q, p (set_twaitq x q) = p x) ->
+              (forall x v, p (set_tts x v) = p x) -> (forall x v, p (set_tk x v) = p x) ->
+              p (sleep_record th k' wq exp) = p th).
+    { intros X p P1 P2 P3 P4. unfold sleep_record. rewrite P3. destruct wq; rewrite ?P2, P1, P4; reflexivity. }
+    assert (Hst : th_state (sleep_record th k' wq exp) = SLEEPING) by (unfold sleep_record; destruct wq; reflexivity).
+    assert (Hts : th_ts (sleep_record th k' wq exp) = exp) by (unfold sleep_record; destruct wq; reflexivity).
+    assert (Hk : th_k (sleep_record th k' wq exp) = k') by (unfold sleep_record; destruct wq; reflexivity).
+    assert (Hwq' : th_waitq (sleep_record th k' wq exp) = wq).
+    { unfold sleep_record. destruct wq; thsimpl; auto. }
+    assert (Hcur : cur_op t (sleep_record th k' wq exp) = cur_op t th).
+    { unfold cur_op. rewrite (P _ th_pc) by (intros; reflexivity). reflexivity. }
+    constructor.
+    - rewrite (P _ th_issued) by (intros; reflexivity). exact A.
+    - intros _. rewrite Hts. exact Hexp.
+    - exact Hcl.
+    - rewrite (P _ th_err), (P _ th_esrc) by (intros; reflexivity). intros X. left. apply Hsrc. exact X.
+    - intros q. rewrite Hwq', Hcur, Hk. apply Hwq.
+    - intros _. right; right. exact Hst.
+    - intros H0 Hn. rewrite Hcur in Hn. exfalso. apply (Hend H0). exact Hn.
+  Qed.
+
+  (* the record of a thread that has just yielded in phase k' of its op *)
+  Definition yield_record (th : thread) (k' : kont) : thread := set_tstate (set_terr (set_tk th k') 0) READY.
+
+  Lemma GoodT_yield_record t th now clock tr k' :
+    GoodT t th now clock tr -> th_waitq th = None -> th_state th <> SLEEPING ->
+    usleep_clauses t (yield_record th k') clock -> (t <> 0%nat -> cur_op t th <> None) ->
+    GoodT t (yield_record th k') now clock tr.
+  Proof.
+    intros [A B C D E F G] Hw Hs Hcl Hend. unfold yield_record in *.
+    constructor; thsimpl.
+    - exact A.
+    - discriminate.
+    - exact Hcl.
+    - intros X. exfalso. apply X. reflexivity.
+    - intros q Hq. congruence.
+    - intros _. left. reflexivity.
+    - intros H0 Hn. exfalso. apply (Hend H0). exact Hn.
+  Qed.
+
 End GOOD.
